@@ -6,4 +6,5 @@ INVARIANT TimePreserved
 INVARIANT SurvivorsKeepPlace
 INVARIANT SameSilence
 INVARIANT NothingLeftToJoin
+INVARIANT PrefixKeepsRowsApart
 CHECK_DEADLOCK FALSE
